@@ -408,6 +408,56 @@ func C16(c *Ctx) {
 		}
 	}
 
+	// ---- R16.8
+	r.Rule("R16.8", "status change and service cascade go together: ClearChainService moves only paused services to forbidden, so every AppchainManager entry that submits a change and pauses the chain's services at all (Manage, which applies concluded proposals, is decided by R16.4) does so on every successful path that has changed the appchain's status (ChangeStatus / basicGovernance): no success return is reachable from the status change without passing the PauseChainService cross-invoke.")
+	{
+		m := c.Contracts()
+		edgeOf := map[*ssa.Call]*core.Edge{}
+		for _, e := range m.bvm.Edges {
+			edgeOf[e.Site] = e
+		}
+		n8 := 0
+		for _, ct := range m.bvm.Contracts {
+			if ct.Name != "AppchainManager" {
+				continue
+			}
+			for _, e := range ct.Entries {
+				if !e.Own || e.Fn == nil || len(e.Fn.Blocks) == 0 || e.Fn.Name() == "Manage" {
+					continue // Manage applies a concluded proposal: its event-specific cascades are decided by R16.4
+				}
+				fn := e.Fn
+				isPause := func(in ssa.Instruction) bool {
+					cl, ok := in.(*ssa.Call)
+					return ok && edgeOf[cl] != nil && edgeOf[cl].Method == "PauseChainService"
+				}
+				if len(sites(fn, isPause)) == 0 {
+					continue
+				}
+				isChange := func(in ssa.Instruction) bool {
+					call, ok := in.(ssa.CallInstruction)
+					if !ok || core.CalleeObj(call) == nil {
+						return false
+					}
+					n := core.CalleeObj(call).Name()
+					return n == "ChangeStatus" || n == "basicGovernance"
+				}
+				for i, ch := range sites(fn, isChange) {
+					n8++
+					rs := core.Reach([]core.Point{core.After(ch)}, isPause, nil)
+					bad := ""
+					for _, ret := range core.Returns(fn) {
+						if rs.Has(ret) && core.MayBeSuccess(fn, ret, 0, core.ConvRespOk) {
+							bad = c.P.Pos(ret.Pos())
+						}
+					}
+					r.Check(bad == "", "R16.8", fmt.Sprintf("%s: status change #%d is followed by PauseChainService on every successful path", e.Key(), i+1), c.P.Pos(ch.Pos()), "no success return reachable from the status change without the cross-invoke",
+						"the appchain's status is changed and the entry returns success at "+bad+" without pausing the chain's services: services that stay available are not moved to forbidden by the later ClearChainService (it only clears paused services), so a logged-out or frozen chain keeps interchanging")
+				}
+			}
+		}
+		r.Floor("R16.8", "status changes in entries that cascade to the services", n8, 2)
+	}
+
 	// ---- R16.6
 	r.Rule("R16.6", "no stale write-back: a governance record loaded with QueryById is not written back (Register/Update/SetObject) after a call that changes the stored status of the same id in between.")
 	c.staleWriteBack()
